@@ -63,6 +63,15 @@ pub fn run(cx: &mut Ctx, args: &Args, rng: &mut Rng) -> i32 {
                 observe(cx, &data, &mut seen);
                 cx.many(id, inst.as_ref(), dir, Shape::ALL[r.below(3)], &data, r.below(16), r.below(16), None);
             }
+            // relations between the lanes of a parallel chunk (equal blocks in some lanes, see rng::lane_pattern)
+            for _ in 0..nrandom + 1 {
+                let (_, pat) = crate::rng::lane_pattern(&mut r, par.max(1));
+                let vals: Vec<Vec<u8>> = (0..par.max(3)).map(|_| r.bytes(bs)).collect();
+                let n = 2 * par + r.below(par.max(1));
+                let data: Vec<u8> = (0..n).flat_map(|j| vals[pat[j % par.max(1)]].clone()).collect();
+                observe(cx, &data, &mut seen);
+                cx.many(id, inst.as_ref(), dir, Shape::ALL[r.below(3)], &data, r.below(16), r.below(16), None);
+            }
             // every (input offset, output offset) pair
             if offsets_all {
                 let n = par + 1;
@@ -85,10 +94,18 @@ pub fn run(cx: &mut Ctx, args: &Args, rng: &mut Rng) -> i32 {
                 cx.many(id, inst.as_ref(), dir, Shape::Inout, &data, r.below(16), r.below(16), Some(on));
             }
             // direct backend calls: one par step + tail
+            // (every entry point of the backend trait: out-of-place and in-place forms of par/tail/single)
             for n in [0, 1, par.saturating_sub(1), par, par + 1, 2 * par - 1] {
                 let data: Vec<u8> = (0..n).flat_map(|j| pattern(2, j, bs, &salt)).collect();
                 observe(cx, &data, &mut seen);
-                cx.direct(id, inst.as_ref(), dir, &data);
+                for mode in 0..4 {
+                    if mode >= 2 && n > par + 1 {
+                        continue;
+                    }
+                    crate::cat::DIRECT_MODE.store(mode, std::sync::atomic::Ordering::Relaxed);
+                    cx.direct(id, inst.as_ref(), dir, &data);
+                }
+                crate::cat::DIRECT_MODE.store(0, std::sync::atomic::Ordering::Relaxed);
             }
         }
         cx.drop_inst(id, inst);
